@@ -5,7 +5,7 @@ From Coq Require Import String NArith ZArith QArith Bool Arith Lia List Permutat
 From GT Require Import Base.UTree Spec.Obs Spec.ConsensusSpec Model.Consensus Model.ConsensusTree
      Proofs.IndexTree Proofs.IndexSplit Proofs.Splits Proofs.USplits
      Proofs.CompareBase Proofs.CompareTree Proofs.CompareMain Proofs.CompareDomain Proofs.CompareDupfree
-     Proofs.ConsensusMain Proofs.ConsensusCompat Proofs.ConsensusRound Proofs.ConsensusInsert.
+     Proofs.CompareCor Proofs.ConsensusMain Proofs.ConsensusCompat Proofs.ConsensusRound Proofs.ConsensusInsert.
 Import ListNotations.
 Local Close Scope Q_scope.
 Local Arguments leaves : simpl never.
@@ -311,4 +311,69 @@ Proof.
   - intros (k & A1 & A2 & A3 & A4 & ->). split; [|reflexivity].
     apply (Permutation_in _ (Permutation_sym P)). apply in_or_app. left.
     apply in_map_iff. exists k. split; auto. apply KK. repeat split; auto. now apply KE.
+Qed.
+
+(** * the headline is not vacuous: ((a,b),c,d) twice and the star tree (a,b,c,d), threshold 0.5:
+    the hypotheses hold and the split ab|cd (canonical side {c,d}, frequency 2/3) is in the tree *)
+Local Open Scope string_scope.
+Example headline_example :
+  let ts := [CompareCor.wit_ref; CompareCor.wit_ref; CompareCor.wit_star] in
+  Forall (fun t => good t /\ tipset t = tipset CompareCor.wit_ref) ts /\
+  ((1 # 2) <= 1 # 2)%Q /\ (Zpos (Qden (1 # 2)) * Z.of_nat (length ts) < 2 ^ 52)%Z /\
+  (exists s, In s (branch_splits (tipset CompareCor.wit_ref) (consensus_utree ts (round53 (1 # 2)))) /\
+             stip s = false /\ sside s = ["c"; "d"] /\ (ssup s == 2 # 3)%Q /\ (slen s == 1)%Q).
+Proof.
+  cbv zeta.
+  assert (N : NoDup ["a"; "b"; "c"; "d"]) by (repeat constructor; simpl; intuition discriminate).
+  assert (L1 : leaves CompareCor.wit_ref = ["a"; "b"; "c"; "d"]) by (vm_compute; reflexivity).
+  assert (L2 : leaves CompareCor.wit_star = ["a"; "b"; "c"; "d"]) by (vm_compute; reflexivity).
+  assert (G1 : good CompareCor.wit_ref) by (unfold good; rewrite L1; repeat split; auto; vm_compute; auto).
+  assert (G2 : good CompareCor.wit_star) by (unfold good; rewrite L2; repeat split; auto; vm_compute; auto).
+  split; [|split; [|split]].
+  - constructor; [split; [exact G1|reflexivity]|]. constructor; [split; [exact G1|reflexivity]|].
+    constructor; [split; [exact G2|vm_compute; reflexivity]|constructor].
+  - apply Qle_refl.
+  - vm_compute. reflexivity.
+  - eexists. split; [vm_compute; right; right; left; reflexivity|].
+    repeat split; vm_compute; reflexivity.
+Qed.
+
+(** * the kept bipartitions do not depend on the order of the collection *)
+Lemma freq_count_perm_local ts ts' k : Permutation ts ts' -> freq_count ts k = freq_count ts' k.
+Proof. intros P. unfold freq_count. apply Permutation_length. now apply CompareCor.filter_perm'. Qed.
+
+Lemma add_key_keeps k l x : In x l -> In x (add_key k l).
+Proof.
+  induction l as [|y l IH]; simpl; intros H; [destruct H|].
+  destruct (key_eqb k y); [exact H|]. destruct H as [->|H]; [now left|right; auto].
+Qed.
+
+Lemma add_key_adds k l : In k (add_key k l).
+Proof.
+  induction l as [|y l IH]; simpl; [now left|].
+  destruct (key_eqb k y) eqn:E; [|now right].
+  unfold key_eqb in E. apply sset_eqb_eq in E. subst. now left.
+Qed.
+
+Lemma all_keys_In_iff ts k : In k (all_keys ts) <-> exists t, In t ts /\ In k (map sside (usplits t)).
+Proof.
+  split; [apply all_keys_In|]. intros (t & Ht & Hk). unfold all_keys.
+  assert (Hl : In k (flat_map (fun t => map sside (usplits t)) ts)) by (apply in_flat_map; eauto).
+  assert (G : forall l acc, In k l \/ In k acc -> In k (fold_left (fun acc k => add_key k acc) l acc)).
+  { induction l as [|x l IH]; simpl; intros acc H; [tauto|].
+    apply IH. destruct H as [[->|H]|H]; auto; right; [apply add_key_adds|now apply add_key_keeps]. }
+  apply G. auto.
+Qed.
+
+Theorem kept_keys_perm t0 r t0' r' c64 k :
+  Permutation (t0 :: r) (t0' :: r') -> tipset t0' = tipset t0 ->
+  (In k (kept_keys (t0 :: r) c64) <-> In k (kept_keys (t0' :: r') c64)).
+Proof.
+  intros P E. unfold kept_keys. rewrite !filter_In, E, (Permutation_length P), (freq_count_perm_local _ _ k P).
+  rewrite !all_keys_In_iff.
+  assert (X : (exists t, In t (t0 :: r) /\ In k (map sside (usplits t))) <-> (exists t, In t (t0' :: r') /\ In k (map sside (usplits t)))).
+  { split; intros (t & Ht & Hk); exists t; split; auto.
+    - apply (Permutation_in _ P Ht).
+    - apply (Permutation_in _ (Permutation_sym P) Ht). }
+  tauto.
 Qed.
